@@ -735,7 +735,7 @@ def main(prop):
     rep = Report(prop)
     build_s = common.build_driver()
     import kani_run
-    kgroups = {'C13': ['stdk'], 'C14': ['tab'] if t == 'thorough' else [], 'C05': []}[prop]
+    kgroups = {'C13': ['stdk', 'util'], 'C14': ['tab'] if t == 'thorough' else [], 'C05': []}[prop]
     kbox = kani_run.start(kgroups, timeout_s=2400, mem_gb=20) if kgroups and not os.environ.get('VERIF_NO_KANI') else None
     items = family(prop, t, sd)
     t0 = time.time()
